@@ -534,10 +534,15 @@ def run_batch(tmp):
              "fmt-jpk-fd_map2x2_extracted.jpk-force-map"]
     for f in files:
         shutil.copy2(vcommon.REPO / "tests" / "data" / f, data / f)
-    # a sub-folder with a link to one of the files (a "selection")
-    (data / "selected").mkdir()
+    # (five curves in all: a run fits them all before the next one starts)
+    # a second folder with a sub-folder that links to one of its files (a
+    # "selection"); it is fitted once, after the rounds
+    datab = tmpd / "data_linked"
+    (datab / "selected").mkdir(parents=True)
+    shutil.copy2(vcommon.REPO / "tests" / "data" / files[0],
+                 datab / files[0])
     try:
-        (data / "selected" / files[0]).symlink_to(data / files[0])
+        (datab / "selected" / files[0]).symlink_to(datab / files[0])
     except OSError:
         pass
     ppath = tmpd / "profile.cfg"
@@ -556,8 +561,12 @@ def run_batch(tmp):
     # file, the profile being edited in between (as the command line does
     # in a session): every run reports the fits of the profile in effect
     rounds = [{}, {"model_key": "hertz_cone"}, {"weight_cp": 0},
-              {"model_key": "hertz_para", "fit param E value": 250.0}]
+              {"model_key": "hertz_para", "fit param E value": 250.0},
+              {"__folder__": datab}]
     for rno, change in enumerate(rounds):
+        if "__folder__" in change:
+            data = change["__folder__"]
+            change = {}
         for k, v in change.items():
             pf[k] = v
         resr = res / f"round{rno}"
